@@ -180,6 +180,8 @@ type ReverseInnerSearcher struct {
 	universalSuffix bool // True if suffix ends with .* (matches everything to end)
 	startAnchored   bool // True if prefix only contains start anchors (^, ^+, etc.)
 	fwdCachePool    sync.Pool
+	fullDFA         *lazy.DFA // forward DFA of the WHOLE pattern: gives the match end once the start is known
+	fullCachePool   sync.Pool
 	revCachePool    sync.Pool
 }
 
@@ -280,6 +282,15 @@ func NewReverseInnerSearcher(
 		return nil, err
 	}
 
+	// Forward DFA of the whole pattern. The candidate only proves that SOME match
+	// starts at the start found by the reverse scan; where the leftmost-first match
+	// from that start ends is decided by the whole pattern (a greedy prefix such as
+	// .* runs on to a later occurrence of the inner literal).
+	fullDFA, err := lazy.CompileWithConfig(fullNFA, config)
+	if err != nil {
+		return nil, err
+	}
+
 	// Create PikeVM for fallback (uses full pattern)
 	pikevm := nfa.NewPikeVM(fullNFA)
 
@@ -299,6 +310,7 @@ func NewReverseInnerSearcher(
 		reverseNFA:      reverseNFA,
 		reverseDFA:      reverseDFA,
 		forwardDFA:      forwardDFA,
+		fullDFA:         fullDFA,
 		prefilter:       pre,
 		pikevm:          pikevm,
 		innerLen:        innerLen,
@@ -312,7 +324,23 @@ func NewReverseInnerSearcher(
 	s.revCachePool = sync.Pool{
 		New: func() any { return s.reverseDFA.NewCache() },
 	}
+	s.fullCachePool = sync.Pool{
+		New: func() any { return s.fullDFA.NewCache() },
+	}
 	return s, nil
+}
+
+// matchEndFrom returns the end of the leftmost-first match of the whole pattern
+// that starts at matchStart; candidateEnd (the end through the verified
+// candidate) is used when the DFA cannot answer.
+func (s *ReverseInnerSearcher) matchEndFrom(haystack []byte, matchStart, candidateEnd int) int {
+	cache := s.fullCachePool.Get().(*lazy.DFACache)
+	end := s.fullDFA.SearchAtAnchored(cache, haystack, matchStart)
+	s.fullCachePool.Put(cache)
+	if end < 0 {
+		return candidateEnd
+	}
+	return end
 }
 
 // Find searches using inner literal prefilter + bidirectional DFA and returns the match.
@@ -441,8 +469,8 @@ func (s *ReverseInnerSearcher) Find(haystack []byte) *Match {
 		}
 
 		// EARLY RETURN: First confirmed match is leftmost by construction!
-		// Forward DFA already finds the longest match from this start position.
-		return NewMatch(matchStart, matchEnd, haystack)
+		// Its end comes from the whole pattern run forward from the start.
+		return NewMatch(matchStart, s.matchEndFrom(haystack, matchStart, matchEnd), haystack)
 	}
 
 	// Fallback: use PikeVM if no DFA match found
@@ -610,8 +638,8 @@ func (s *ReverseInnerSearcher) findIndicesAtImpl(haystack []byte, at int, fwdCac
 			continue
 		}
 
-		// Found valid match
-		return matchStart, matchEnd, true
+		// Found valid match; its end comes from the whole pattern run forward from the start
+		return matchStart, s.matchEndFrom(haystack, matchStart, matchEnd), true
 	}
 
 	// Fallback to PikeVM
